@@ -62,10 +62,10 @@ TraceEndOk == /\ IsEvent("BuildEnd") /\ Rec[l].out = "ok"
 TraceEndErr == /\ IsEvent("BuildEnd") /\ Len(Rec[l].out) > 4 /\ SubSeq(Rec[l].out, 1, 4) = "err:"
                /\ LET r == Rec[l]
                       e == ErrOf(r.out) IN
-                  /\ lastOvf => e = "BufferOverflow"
-                  /\ (number < 0) <=> (e = "EncodingNotSupported")
+                  \* which error variant is returned is not fixed by C09 / C12 (only that it is an error); the
+                  \* variant is carried into Abort as logged
                   /\ (number < 0) => nputs = 0
-                  /\ r.fresh_out = r.out
+                  /\ Len(r.fresh_out) > 4 /\ SubSeq(r.fresh_out, 1, 4) = "err:"      \* a fresh builder refuses it too
                   /\ Abort(e)
                /\ UNCHANGED <<number, nputs, lastOvf>>
 (* a panic matches no action: the trace is rejected there (C09) *)
@@ -74,7 +74,7 @@ Init == l = 1 /\ BuilderInit /\ number = -1 /\ nputs = 0 /\ lastOvf = FALSE
 Next == TraceNew \/ TraceBegin \/ TracePut \/ TraceEndOk \/ TraceEndErr
 
 Explain(r) == [event |-> r.ev,
-               rule |-> "Put: at the spec cursor, ok iff it fits the 1023-byte window; BuildEnd ok: frame = Finish(Fresh + puts) byte for byte (except non-representable fields), well formed, first 12 bits = number, fresh builder agrees; err: BufferOverflow iff a put overflowed, EncodingNotSupported iff no wire form; panic: never"]
+               rule |-> "Put: at the spec cursor, ok iff it fits the 1023-byte window; BuildEnd ok: frame = Finish(Fresh + puts) byte for byte (except non-representable fields), well formed, first 12 bits = number, fresh builder agrees; err: some error (the variant is not fixed) after an overflowing put or for a message without wire form, and a fresh builder errs as well; panic: never"]
 Accepted == LET d == TLCGet("stats").diameter IN
             IF d - 1 = Len(Rec) THEN TRUE
             ELSE /\ PrintT(<<"UNMATCHED", d, ToJson(Explain(Rec[d]))>>)
